@@ -427,6 +427,58 @@ def norm_index(i, n):
     return z3.If(i < 0, i + n, i)
 
 
+def seq_len(ex, state, t, depth=0):
+    """length of a sequence term with slices / concatenations resolved structurally where the bounds are provable
+    (an equal but much smaller term than Length(t) for the sequence solver)"""
+    if z3.is_app(t) and depth < 6:
+        k = t.decl().kind()
+        if k == z3.Z3_OP_SEQ_UNIT:
+            return z3.IntVal(1)
+        if k == z3.Z3_OP_SEQ_EMPTY:
+            return z3.IntVal(0)
+        if k == z3.Z3_OP_SEQ_CONCAT:
+            return simp(z3.Sum([seq_len(ex, state, c, depth + 1) for c in t.children()]))
+        if k == z3.Z3_OP_SEQ_EXTRACT:
+            base, lo, n = t.arg(0), t.arg(1), t.arg(2)
+            if ex.prove_quick(state, z3.And(lo >= 0, n >= 0, lo + n <= seq_len(ex, state, base, depth + 1))):
+                return simp(n)
+    return z3.Length(t)
+
+
+def seq_nth(ex, state, t, i, depth=0):
+    """element i of t for an index known to be in range: slices and concatenations are looked through"""
+    i = simp(i)
+    if z3.is_app(t) and depth < 6:
+        k = t.decl().kind()
+        if k == z3.Z3_OP_SEQ_UNIT:
+            return t.arg(0)
+        if k == z3.Z3_OP_SEQ_EXTRACT:
+            base, lo = t.arg(0), t.arg(1)
+            if ex.prove_quick(state, lo >= 0):
+                return seq_nth(ex, state, base, simp(lo + i), depth + 1)
+        if k == z3.Z3_OP_SEQ_CONCAT:
+            off = z3.IntVal(0)
+            for c in t.children():
+                lc = seq_len(ex, state, c, depth + 1)
+                if ex.prove_quick(state, i < simp(off + lc)):
+                    return seq_nth(ex, state, c, simp(i - off), depth + 1)
+                if not ex.prove_quick(state, i >= simp(off + lc)):
+                    break
+                off = simp(off + lc)
+    return t[i]
+
+
+def seq_slice(ex, state, t, lo, n):
+    """t[lo:lo+n] for provably valid bounds (0 <= lo, 0 <= n, lo+n <= len t): a slice of a slice is taken from the
+    underlying sequence directly"""
+    if z3.is_app(t) and t.decl().kind() == z3.Z3_OP_SEQ_EXTRACT:
+        base, lo0, n0 = t.arg(0), t.arg(1), t.arg(2)
+        if ex.prove_quick(state, z3.And(lo0 >= 0, n0 >= 0, lo0 + n0 <= seq_len(ex, state, base), lo >= 0, n >= 0,
+                                        lo + n <= n0)):
+            return seq_slice(ex, state, base, simp(lo0 + lo), n)
+    return z3.Extract(t, lo, n)
+
+
 def get_item(ex, state, v, k):
     if isinstance(v, VPtr):
         return get_item(ex, state, v.base, VInt(simp(v.off + ex.num(k))))
@@ -436,14 +488,14 @@ def get_item(ex, state, v, k):
         if not isinstance(k, (VInt, VBool)):
             ex.raise_if(state, z3.BoolVal(True), "TypeError")
         i = ex.num(k)
-        n = z3.Length(v.t)
+        n = seq_len(ex, state, v.t) if isinstance(v, VBytes) else z3.Length(v.t)
         ex.raise_if(state, z3.Or(i >= n, i < -n), "IndexError")
         j = ex.index_term(state, i, n)
         if isinstance(v, VBytes):
             cb = const_seq(v.t)
             if cb is not None and len(cb) > 8 and not z3.is_int_value(j):
                 return VInt(z3.Select(const_table(cb), j))
-            e = v.t[j]
+            e = seq_nth(ex, state, v.t, j)
             state.assume(z3.And(e >= 0, e <= 255))
             return VInt(e)
         return VStr(z3.SubString(v.t, j, 1))
@@ -557,7 +609,7 @@ def get_slice(ex, state, v, lo, hi, step):
         lt = ex.num(l) if l is not None and not isinstance(l, VNoneT) else None
         ht = ex.num(h) if h is not None and not isinstance(h, VNoneT) else None
         if isinstance(a, (VBytes, VStr)):
-            n = z3.Length(a.t)
+            n = seq_len(ex, state, a.t) if isinstance(a, VBytes) else z3.Length(a.t)
             # bounds that are provably inside [0, n] need no clamping (keeps the terms small)
             if lt is not None and not z3.is_int_value(simp(lt)) and ex.prove_quick(state, z3.And(lt >= 0, lt <= n)):
                 l2 = lt
@@ -571,6 +623,8 @@ def get_slice(ex, state, v, lo, hi, step):
                 ln = simp(h2 - l2)
             else:
                 ln = simp(z3.If(h2 > l2, h2 - l2, z3.IntVal(0)))
+            if isinstance(a, VBytes) and ex.prove_quick(state, z3.And(l2 >= 0, ln >= 0, l2 + ln <= n)):
+                return VBytes(seq_slice(ex, state, a.t, simp(l2), ln))
             t = z3.Extract(a.t, l2, ln)
             return type(a)(t)
         if isinstance(a, VTuple):
